@@ -272,7 +272,7 @@ func ArrayAccessFunction(name string) ZlispUserFunction {
 			case *SexpInt:
 				i = int(j.Val)
 			default:
-				return SexpNull, fmt.Errorf("Second argument of aget could not be evaluated to integer; got j = '%#v'/type = %T", j, j)
+				return SexpNull, fmt.Errorf("Second argument of aget could not be evaluated to integer; got j = '%s'/type = %T", j.SexpString(nil), j)
 			}
 		}
 
@@ -963,7 +963,7 @@ func MapFunction(env *Zlisp, name string, args []Sexp) (Sexp, error) {
 	case *SexpFunction:
 		fun = e
 	default:
-		return SexpNull, fmt.Errorf("first argument must be function, but we had %T / val = '%#v'", e, e)
+		return SexpNull, fmt.Errorf("first argument must be function, but we had %T / val = '%s'", e, e.SexpString(nil))
 	}
 
 	switch e := args[1].(type) {
@@ -973,7 +973,7 @@ func MapFunction(env *Zlisp, name string, args []Sexp) (Sexp, error) {
 		x, err := MapList(env, fun, e)
 		return x, err
 	default:
-		return SexpNull, fmt.Errorf("second argument must be array or list; we saw %T / val = %#v", e, e)
+		return SexpNull, fmt.Errorf("second argument must be array or list; we saw %T / val = %s", e, e.SexpString(nil))
 	}
 }
 
@@ -1338,8 +1338,8 @@ func threadingHelper(env *Zlisp, hash *SexpHash, args []Sexp) (Sexp, error) {
 		h, isHash := field.(*SexpHash)
 		if !isHash {
 			return SexpNull, fmt.Errorf("request for field '%s' was "+
-				"not on a hash or defmap; instead type %T with value '%#v'",
-				args[1].SexpString(nil), field, field)
+				"not on a hash or defmap; instead type %T with value '%s'",
+				args[1].SexpString(nil), field, field.SexpString(nil))
 		}
 		return threadingHelper(env, h, args[1:])
 	}
